@@ -174,11 +174,18 @@ fn check_additive(prop: &str, what: &str, pre: &MemStore, post: &MemStore, log: 
     }
 }
 
-fn check_delete_step(prop: &str, what: &str, pre: &MemStore, bands: &[u32], log: &[OpRecord], out: &mut Vec<Violation>) {
+fn check_delete_step(prop: &str, what: &str, pre: &MemStore, bands: &[u32], break_lock: bool, log: &[OpRecord], out: &mut Vec<Violation>) {
     let pre_view = format::decode(pre);
+    // "its own lock file": one it wrote in this invocation; with break_lock, the one removal
+    // that precedes taking the lock is the requested breaking of a stale lock
+    let mut own_lock = false;
+    let mut broke = false;
     let kept: Vec<u32> = pre_view.bands.keys().copied().filter(|b| !bands.contains(b)).collect();
     let refd = referenced_hashes(&pre_view, kept.into_iter());
     for r in log {
+        if r.is_ok_write() && r.path == "GC_LOCK" {
+            own_lock = true;
+        }
         if r.is_ok_write() && r.path != "GC_LOCK" {
             out.push(Violation::new(prop, "delete_writes_only_lock", path_class(&r.path).to_string(), format!("{what}: {}", r.line())));
         }
@@ -190,6 +197,13 @@ fn check_delete_step(prop: &str, what: &str, pre: &MemStore, bands: &[u32], log:
         }
         if r.verb == "rm" && r.mutated() {
             if r.path == "GC_LOCK" {
+                if own_lock {
+                    own_lock = false;
+                } else if break_lock && !broke {
+                    broke = true;
+                } else {
+                    out.push(Violation::new(prop, "delete_removes_only_own_lock", "foreign_lock_removed", format!("{what}: {} (this invocation had not written a lock)", r.line())));
+                }
                 continue;
             }
             let name = r.path.rsplit('/').next().unwrap_or("");
@@ -237,13 +251,13 @@ fn execute_found(sc: &Scenario, acc: &mut Acc) -> Result<Vec<Found>, String> {
                     }
                     check_additive(prop, &format!("step {si} (backup)"), &pre, &post, &log, &mut out, acc, true);
                 }
-                (StepResult::Delete(_), Step::Delete { bands, dry_run, .. }) => {
+                (StepResult::Delete(_), Step::Delete { bands, dry_run, break_lock, .. }) => {
                     acc.evaluations += 1;
                     acc.hit("delete_step_checked");
                     let post = w.store();
                     state_seq.push(post.state_hash());
                     acc.states.insert(post.state_hash());
-                    check_delete_step(prop, &format!("step {si} (delete {bands:?})"), &pre, bands, &log, &mut out);
+                    check_delete_step(prop, &format!("step {si} (delete {bands:?})"), &pre, bands, *break_lock, &log, &mut out);
                     if *dry_run {
                         for r in log.iter().filter(|r| matches!(r.verb, "rm" | "rmtree") && r.mutated() && r.path != "GC_LOCK") {
                             out.push(Violation::new(prop, "dry_run_removes_nothing", r.verb.to_string(), format!("step {si}: {}", r.line())));
